@@ -139,6 +139,17 @@ def point_violations(p, on, v, heat=None, power=None, tol=1e-7, ambiguous=None):
                 else:
                     msgs.append("step %d: output falls by %g > ramp %g" % (t, -d, ramp))
             prev = v[t]
+    if heat is not None:
+        for t in range(T):
+            r = role[t]
+            if not int(on[t]) or r is None:
+                continue
+            hp = p.get("start_prof_heat" if r[0] == "start" else "shut_prof_heat")
+            if hp:
+                lo_, hi_ = hp[r[1]]
+                if heat[t] < lo_ - tol or heat[t] > hi_ + tol:
+                    msgs.append("step %d: %s profile step %d requires heat in [%g,%g], heat %g"
+                                % (t, "start" if r[0] == "start" else "shutdown", r[1], lo_, hi_, heat[t]))
     if heat is not None and p.get("share") is not None:
         for t in range(T):
             if heat[t] > p["share"][t] * power[t] + tol:
